@@ -158,8 +158,6 @@ def run(ctx) -> None:
     ctx.section("d", _tracker, ctx)
     ctx.section("e", _who_calls, ctx)
     ctx.section("f", _fresh_storage, ctx)
-    ctx.info("deepcopy in _check_duplicate creates a vector that is not registered; harmless for isolation (immutable "
-             "storage, C01.a)")
     ctx.not_decided.append("garbage-collection timing itself; the argument is by invariant preservation, not by exploring histories")
 
 
